@@ -470,7 +470,7 @@ func genC16(g *gen) {
 	{
 		a := append([]byte{0x10}, g.bytes(19)...)
 		ha := hex.EncodeToString(a)
-		for _, bad := range []string{"+" + ha, "-" + ha, "+" + ha[1:], "0x+" + ha[1:], ha[:39] + "_", "0x" + ha[:38] + "_0", "0b" + ha[2:], "0o" + ha[2:]} {
+		for _, bad := range []string{"+" + ha, "-" + ha, "+" + ha[1:], "0x+" + ha[1:], ha[:39] + "_", "0x" + ha[:38] + "_0", "0o" + ha[2:], "0X" + ha[2:] + "p0"} {
 			hb := hx([]byte(bad))
 			g.check(g.op("js.dvalid %s", hb) == "ok false", "nonhex-dvalid", "IsValidDilithiumAddress accepted a string that is not hexadecimal: "+bad, "js.dvalid "+hb)
 			g.check(g.op("js.xvalid %s", hb) == "ok false", "nonhex-xvalid", "IsValidXMSSAddress accepted a string that is not hexadecimal: "+bad, "js.xvalid "+hb)
